@@ -44,6 +44,9 @@ def stepLine (_ : Unit) (line : String) : Unit × String :=
         let args ← as.mapM parseArg
         match op with
         | "pf" => pure (showOutcome (printf fmt args))
+        -- probes of finding C06-star-width-int-min (`*` width = INT_MIN): the model would go on with a
+        -- width of 2^31 (star_width_int_min_witness); the line is not compared, do not build 2 GiB of padding
+        | "pfmin" => pure "int-min-star"
         | "sp" | "spv" =>
           match vsprintf fmt args with
           | some (buf, ret) => pure (showRes ret buf)
